@@ -38,7 +38,7 @@ RULE = ('each run = 2-4 adapter exchanges (signer A, counterparty B choosing t, 
 VARIANTS = ['two_script', 'three_script', 'deprecated', 'raw_public', 'raw_private']
 TWEAKS = ['random', 'clamped', 'bit255', 'one', 'Lm1', 'Lp1']
 CORR = ['none', 'sa', 'R', 'T', 'X', 'm', 'sa_bit255']
-FLAGS = ['00', '01', '02', '03']
+FLAGS = ['00', '01', '02', '03', '80', 'a4']
 N_CELLS = len(VARIANTS) * len(TWEAKS) * len(CORR) * len(FLAGS)
 REQUIRED_PROBES = ['corrupt_sa', 'corrupt_R', 'corrupt_T', 'corrupt_X', 'corrupt_m',
                    'sa_bit255', 'edge_scalar_one', 'edge_scalar_Lm1', 'edge_scalar_Lp1',
@@ -54,7 +54,7 @@ def decode_cell(i):
     v = VARIANTS[i % 5]; i //= 5
     tw = TWEAKS[i % 6]; i //= 6
     co = CORR[i % 7]; i //= 7
-    fl = FLAGS[i % 4]
+    fl = FLAGS[i % len(FLAGS)]
     return v, tw, co, fl
 
 
